@@ -652,7 +652,23 @@ func Solve(query string, dir string, name string, timeoutS int, all bool) Solver
 			return r
 		}
 	}
-	return solveWith(solverSpecs, query, dir, name, timeoutS, all, false)
+	r := solveWith(solverSpecs, query, dir, name, timeoutS, all, false)
+	timedOut := r.Status == "timeout"
+	for _, st := range r.All {
+		if st == "timeout" {
+			timedOut = true
+		}
+	}
+	if timedOut && (r.Status == "timeout" || r.Status == "unknown") && !all {
+		// every solver ran out of time: on a loaded machine that says little, so the
+		// race is repeated once with three times the budget before the obligation
+		// is reported as not discharged
+		r2 := solveWith(solverSpecs, query, dir, name, 3*timeoutS, all, false)
+		if r2.Status == "unsat" || r2.Status == "sat" {
+			return r2
+		}
+	}
+	return r
 }
 
 // SolveCover answers a vacuity guard: only "unsat" matters, so the first answer
